@@ -780,6 +780,10 @@ func sequence(r *ev.Run, c *ev.Case, seqNo int) {
 				srv.err = errors.New(text())
 			} else {
 				srv.cert = x509Certs[rng.Intn(len(x509Certs))]
+				if rng.Intn(5) == 0 {
+					// a served agent that hands back what it read AND says what was wrong with it: the caller gets the error
+					srv.err = errors.New("the slot certificate does not chain to the device: " + text())
+				}
 			}
 			op := []string{"read-slot", "attest-slot"}[rng.Intn(2)]
 			trace = append(trace, op)
@@ -950,6 +954,7 @@ func sequence(r *ev.Run, c *ev.Case, seqNo int) {
 const toolScript = `#!/bin/sh
 d="$(dirname "$0")"
 echo "$@" >> "$d/invocations"
+cat "$d/err" >&2
 cat "$d/out"
 exit "$(cat "$d/rc")"
 `
@@ -1022,6 +1027,7 @@ func rigB(r *ev.Run) {
 	tool := filepath.Join(dir, "yubico-piv-tool")
 	os.WriteFile(tool, []byte(toolScript), 0o755)
 	os.WriteFile(filepath.Join(dir, "out"), nil, 0o644)
+	os.WriteFile(filepath.Join(dir, "err"), nil, 0o644)
 	os.WriteFile(filepath.Join(dir, "rc"), []byte("0"), 0o644)
 	os.Setenv("PATH", dir+":"+os.Getenv("PATH"))
 	ag := wire.New()
@@ -1078,7 +1084,13 @@ func rigB(r *ev.Run) {
 		}
 		os.WriteFile(filepath.Join(dir, "out"), []byte(out), 0o644)
 		os.WriteFile(filepath.Join(dir, "rc"), []byte(fmt.Sprint(rc)), 0o644)
-		rec := map[string]any{"tool_output": trunc(out), "exit_status": rc}
+		// what the tool says on its standard error (warnings of a tool that goes on to succeed) is not its answer
+		diag := ""
+		if i%4 == 1 {
+			diag = []string{"Slot 82:\twarning: retired key management slot is empty\n", "warning: PIN tries left: 2\n", "Slot 9d: deprecated algorithm", "Slot f9:\n"}[i/4%4]
+		}
+		os.WriteFile(filepath.Join(dir, "err"), []byte(diag), 0o644)
+		rec := map[string]any{"tool_output": trunc(out), "tool_stderr": diag, "exit_status": rc}
 		viaClient := i%3 == 0 && len(out) < 1<<20
 		r.Eval(1)
 		if _, hung := r.GuardWithin(c, "ListSlots", rec, ev.CaseBudget(), func() {
